@@ -2,6 +2,7 @@ CONSTANTS
   FW = {1, 2, 3, 4, 5}
   Rec = {1, 2, 3, 4, 5, 6, 7, 8, 9, 10, 11, 12}
   Thread = {1, 2, 3}
+  Orig = {1, 2}
   Deviations = {}
   Depth = 60
 SPECIFICATION GenSpec
